@@ -34,6 +34,7 @@ FUNCTIONS = [
     "autoarray.structures.mesh.rectangular_2d.Mesh2DRectangular.neighbors",
     "autoarray.structures.mesh.delaunay_2d.Mesh2DDelaunay.neighbors",
     "autoarray.inversion.linear_obj.linear_obj.LinearObj.regularization_matrix",
+    "autoarray.inversion.linear_obj.func_list.AbstractLinearObjFuncList.neighbors",
     "autoarray.inversion.inversion.abstract.AbstractInversion.regularization_matrix",
     "autoarray.inversion.inversion.abstract.AbstractInversion.regularization_matrix_reduced",
     "autoarray.inversion.inversion.abstract.AbstractInversion.no_regularization_index_list",
@@ -48,6 +49,8 @@ DELAUNAY = {
     "D7": [[1.5, -1.0], [1.0, 1.25], [0.25, 0.125], [-1.0, -1.5], [-1.25, 1.0], [-0.25, -0.375], [0.5, -0.25]],
     "D9": [[1.5, -1.0], [1.0, 1.25], [0.25, 0.125], [-1.0, -1.5], [-1.25, 1.0], [-0.25, -0.375], [0.5, -0.25],
            [1.25, 0.25], [-0.75, 0.25]],
+    "D12": [[1.5, -1.0], [1.0, 1.25], [0.25, 0.125], [-1.0, -1.5], [-1.25, 1.0], [-0.25, -0.375], [0.5, -0.25],
+            [1.25, 0.25], [-0.75, 0.25], [0.75, 0.75], [-0.5, -0.875], [0.125, 1.0]],
 }
 
 BOUNDS = {
@@ -166,6 +169,8 @@ def mesh_reference(mesh):
         return mesh[1] * mesh[2], _rect_pairs(mesh[1], mesh[2])
     if mesh[0] == "del":
         return len(DELAUNAY[mesh[1]]), _delaunay_pairs(DELAUNAY[mesh[1]])
+    if mesh[0] == "chain":          # linear function list: parameter i neighbours i-1 and i+1
+        return mesh[1], [(i, i + 1) for i in range(mesh[1] - 1)]
     raise ValueError(mesh)
 
 
@@ -212,6 +217,8 @@ def graph_tables(adj_bits, n):
 
 def build_mapper(mesh, img, adapt=None):
     import autoarray as aa
+    if mesh[0] == "chain":
+        return aa.m.MockLinearObjFuncList(parameters=mesh[1], regularization=None)
     mask, over_sampler, grid = image_parts(img)
     mg = mesh_grid_from(mesh, grid)
     ad = None
@@ -652,12 +659,13 @@ def case_split(ctx, mesh, scheme, weights_mode, pd=False):
 
 # ------------------------------------------------------------------------------------------------ level I: block placement in the inversion
 
-BLOCK_SIZE = {"S2": 2, "S3": 3, "N1": 1, "N2": 2, "C": 9}
+BLOCK_SIZE = {"S2": 2, "S3": 3, "N1": 1, "N2": 2, "C": 9, "F3": 3}
 
 
 def body_blocks(inp, seq):
     """inversion.regularization_matrix / regularization_matrix_reduced for a sequence of linear objects:
-    S<k>: regularized, arbitrary symbolic k x k matrix;  N<k>: k parameters, no regularization;  C: real rectangular 3x3 mapper + Constant"""
+    S<k>: regularized, arbitrary symbolic k x k matrix;  N<k>: k parameters, no regularization;  C: real rectangular 3x3 mapper + Constant;
+    F3: linear function list with 3 parameters + Constant"""
     import autoarray as aa
     A, E = {}, {}
     objs, blocks = [], []
@@ -672,7 +680,7 @@ def body_blocks(inp, seq):
             blocks.append((False, np.zeros((k, k))))
         else:
             c = inp["c%d" % pos]
-            mesh = ["rect", 3, 3]
+            mesh = ["rect", 3, 3] if kind == "C" else ["chain", 3]
             mapper = build_mapper(mesh, IMG)
             mapper.regularization = aa.reg.Constant(coefficient=c)
             objs.append(mapper)
@@ -719,7 +727,7 @@ def case_blocks(ctx, seq):
         k = BLOCK_SIZE[kind]
         if kind[0] == "S":
             inputs["B%d" % pos] = V.real_array("B%d" % pos, (k, k))
-        elif kind == "C":
+        elif kind in ("C", "F3"):
             inputs["c%d" % pos] = V.real("c%d" % pos)
             _positive(ctx, inputs["c%d" % pos])
     if not inputs:
@@ -736,8 +744,8 @@ BODIES = {"case_kernels": body_kernels, "case_scheme": body_scheme, "case_split"
 def cases(tier):
     q = tier == "quick"
     out = []
-    rects = [(3, 3), (3, 4), (4, 3), (4, 4), (3, 5), (5, 5)] + ([] if q else [(4, 5), (5, 3), (6, 6)])
-    dels = ["D5", "D6", "D7", "D9"]
+    rects = [(3, 3), (3, 4), (4, 3), (4, 4), (3, 5), (5, 5)] + ([] if q else [(4, 5), (5, 3), (6, 6), (5, 7), (7, 7), (8, 8)])
+    dels = ["D5", "D6", "D7", "D9"] + ([] if q else ["D12"])
     pd_cap = 9 if q else 12
     meshes = [["rect", h, w] for h, w in rects] + [["del", d] for d in dels]
     for m in meshes:
@@ -761,6 +769,10 @@ def cases(tier):
             out.append(("case_scheme", {"mesh": m, "scheme": "ConstantSplit", "sscale": 1}))
             for ss in (1, "sym"):
                 out.append(("case_scheme", {"mesh": m, "scheme": "AdaptiveBrightnessSplit", "sscale": ss}))
+    # linear function lists (1D chain of neighbours, LinearObjFuncList.neighbors)
+    for n in ([1, 2, 3, 5] if q else [1, 2, 3, 4, 5, 6, 8]):
+        for scheme in ("Constant", "ConstantZeroth", "Zeroth"):
+            out.append(("case_scheme", {"mesh": ["chain", n], "scheme": scheme, "sscale": 1, "pd": scheme == "Constant" or (scheme == "ConstantZeroth" and n <= 5)}))
     # split-cross schemes with symbolic tables
     for d in (["D5", "D6"] if q else dels):
         m = ["del", d]
@@ -773,9 +785,9 @@ def cases(tier):
     seqs = []
     for L in range(1, 4 if q else 5):
         seqs += [list(s) for s in itertools.product(alphabet if q or L < 4 else ["S2", "S3", "N1"], repeat=L)]
-    seqs += [["C"], ["C", "N1"], ["N2", "C"], ["N1", "C", "N2"], ["C", "N1", "S2"], ["S2", "C"]]
+    seqs += [["C"], ["C", "N1"], ["N2", "C"], ["N1", "C", "N2"], ["C", "N1", "S2"], ["S2", "C"], ["F3"], ["F3", "N1", "C"], ["N2", "F3"]]
     if not q:
-        seqs += [["C", "C"], ["C", "N2", "C"], ["N1", "C", "S3", "N2"]]
+        seqs += [["C", "C"], ["C", "N2", "C"], ["N1", "C", "S3", "N2"], ["F3", "C", "N1", "F3"]]
     for s in seqs:
         out.append(("case_blocks", {"seq": s}))
     return out
